@@ -1,5 +1,6 @@
 import DdsModel.Enc13
 import DdsModel.Enc7
+import DdsModel.EncBc15
 import DdsModel.Drv.Util
 /-!
 Driver section of C13.  Case line (see harness/src/c13.rs):
@@ -18,6 +19,9 @@ Further case kinds (direct tie through `dds::verif_hook`, only generated when th
 `w7h <mode> <part> <rot> <sel> <endpoints> <alpha> <pbits> <indexes> <indexes2>` → hex of `Enc7.write`;
 `cl7h <kind> <I> <e0> <e1> <pixels>` → `closest_rgb / rgba / alpha`: index list and error;
 `w7e <W> <weights>` → the encoder's weight table re-parsed from src/encode/bc7.rs against `Enc7.WEIGHTS_W`.
+BC1–BC5 additionally (`EncBc15.lean`): `w15` = every emitted block parsed with the decoder-side readers and written again
+with the model's constructors and writers (hash of the bytes); `cl15` = for RGBA8 inputs and blocks fully inside the image
+the halves re-derived from their own endpoints and the original pixels (`Enc15.emitColourF32`, `emitBc4`, `singleColor`).
 -/
 namespace Dds.Drv.C13
 open Dds Dds.Drv Dds.Bc Dds.Enc13
@@ -143,6 +147,106 @@ def maskOutside (f : Option Fmt) (inside : List Bool) (pieces : List (Nat × Lis
       else pc
   else pieces
 
+
+/-! ### BC1–BC5 encoder core (`EncBc15.lean`): tokens `w15`, `cl15` -/
+
+/-- decoder-side reader of the colour half at byte offset `o`: the two 5:6:5 colours (`B565.fromU16` of the
+little-endian words) -/
+def colourEnds (blk : Nat → Nat) (o : Nat) : C565 × C565 :=
+  let c0 := B565.fromU16 (le16 blk o)
+  let c1 := B565.fromU16 (le16 blk (o + 2))
+  (⟨c0.r5, c0.g6, c0.b5⟩, ⟨c1.r5, c1.g6, c1.b5⟩)
+
+/-- the palette mode a written colour half is decoded with as BC1 -/
+def modeOfOrder (blk : Nat → Nat) (o : Nat) : Enc15.PaletteMode := if le16 blk o > le16 blk (o + 2) then .p4 else .p3
+
+/-- `w15`, colour half: endpoints and indexes read back with the decoder-side readers, written again with
+`Enc15.emitColour` (constructor of the mode + index list + `with_indexes`).  BC1: the mode the order selects, alpha map =
+the pixels whose index is not 3 (three-colour mode); BC2 / BC3 family: always `compress_p4` on the all-opaque map. -/
+def rewriteColour (bc1 : Bool) (blk : Nat → Nat) (o : Nat) : Option (List Nat) :=
+  let e := colourEnds blk o
+  let mode := if bc1 then modeOfOrder blk o else .p4
+  let amap := if mode = .p3 then
+      (List.range 16).foldl (fun m p => Enc15.setOpaqueIf m p (colourIndex blk o p != 3)) 0
+    else ALL_OPAQUE
+  Enc15.emitColour mode e.1 e.2 amap fun p => colourIndex blk o p
+
+/-- `w15`, BC4-type half: the endpoint bytes as levels, re-created by the constructor whose order they show
+(`new_inter6` / `new_inter4` / equal levels: `new_closest`), sixteen `set`s, `with_indexes` -/
+def rewriteBc4 (snorm : Bool) (blk : Nat → Nat) (o : Nat) : Option (List Nat) :=
+  let l0 := Enc15.levelOfByte snorm (blk o)
+  let l1 := Enc15.levelOfByte snorm (blk (o + 1))
+  let e := if l0 > l1 then Enc15.newInter6 snorm l1 l0 l1 l0
+    else if l0 < l1 then Enc15.newInter4 snorm l0 l1 l0 l1
+    else Enc15.newClosest snorm l0
+  (Enc15.idxFill 3 U64 fun p => some (bc4Index (fun i => blk (o + i)) p)).map (Enc15.withIndexes4 e.c0 e.c1)
+
+/-- `w15`, BC2 explicit alpha: the sixteen nibbles the decoder reads, written again by `bc2_alpha` (as alphas `17·n`) -/
+def rewriteBc2Alpha (blk : Nat → Nat) : List Nat := bc2AlphaBlock ((List.range 16).map fun p => bc2Alpha blk p)
+
+def optCat (a b : Option (List Nat)) : Option (List Nat) := a.bind fun x => b.map fun y => Enc15.concatBlocks x y
+
+def rewriteBlock (f : Fmt) (blk : Nat → Nat) : Option (List Nat) :=
+  match f with
+  | .bc1 => rewriteColour true blk 0
+  | .bc2 | .bc2p => optCat (some (rewriteBc2Alpha blk)) (rewriteColour false blk 8)
+  | .bc3 | .bc3p | .rxgb | .bc3n => optCat (rewriteBc4 false blk 0) (rewriteColour false blk 8)
+  | .bc4u => rewriteBc4 false blk 0
+  | .bc4s => rewriteBc4 true blk 0
+  | .bc5u => optCat (rewriteBc4 false blk 0) (rewriteBc4 false blk 8)
+  | .bc5s => optCat (rewriteBc4 true blk 0) (rewriteBc4 true blk 8)
+  | _ => none
+
+def hashBytes (o : Option (List Nat)) : String :=
+  match o with
+  | some l => hex8 (hashVals l)
+  | none => "!!!!!!!!"
+
+def ditheringOf (d : String) : Enc15.Dithering :=
+  if d = "C" then .color else if d = "A" then .alpha else if d = "B" then .colorAndAlpha else .none
+
+/-- `cl15`, colour half: the block `Enc15.emitColourF32` builds from the endpoints the emitted half shows and the
+ORIGINAL pixels — `create_endpoints` of the mode, the encoder's binary32 palette, `closest` per opaque pixel,
+`transparent_index` elsewhere, `with_indexes`.  The mode is what `compress_bc1_block` / `compress` allow
+(`Enc13.choice`): the constant `TRANSPARENT_BLOCK`, P3 only, P4 only, or the better of both (then: the emitted one). -/
+def reColour (f : Fmt) (o1 : Enc15.Bc1Options) (blk : Nat → Nat) (o : Nat) (px : List Px) : Option (List Nat) :=
+  let e := colourEnds blk o
+  let cols := px.map (Enc15.colourInput f)
+  match choice o1.noP3Default o1.opaqueAlwaysP4 (px.map (·.a)) with
+  | .transparentBlock => some TRANSPARENT_BLOCK
+  | .p3 => Enc15.emitColourF32 .p3 e.1 e.2 (alphaMap (px.map (·.a))) cols
+  | .p4 => Enc15.emitColourF32 .p4 e.1 e.2 ALL_OPAQUE cols
+  | .best => Enc15.emitColourF32 (modeOfOrder blk o) e.1 e.2 ALL_OPAQUE cols
+
+/-- `cl15`, BC4-type half: sixteen equal values outside the reference path → the whole block of `single_color`;
+else the endpoint bytes the emitted half shows, the palette of their order, `block_closest` -/
+def reBc4 (o4 : Enc15.Bc4Options) (blk : Nat → Nat) (o : Nat) (vals : List Nat) : Option (List Nat) :=
+  let pix := vals.map fun v => CF32.fclamp (Conv.n8f32 v) 0 CF32.one
+  match vals with
+  | v :: rest =>
+    if rest.all (· == v) ∧ ¬ Enc15.usesBruteForce o4 then Enc15.singleColor o4.snorm (Enc15.singleValue (Conv.n8f32 v))
+    else Enc15.emitBc4 o4.snorm (blk o) (blk (o + 1)) pix
+  | [] => none
+
+/-- the halves of one block for `cl15`: `-` where nothing is asserted (see `bc15_halves` in harness/src/c13.rs: the
+switches come from the MODEL's option plumbing `fmtBc1Options` / `fmtBc4Options`) -/
+def cl15Block (f : Fmt) (q : Quality) (d : Enc15.Dithering) (perceptual : Bool) (blk : Nat → Nat) (px : List Px) : String :=
+  let colour (o : Nat) : String :=
+    match Enc15.fmtBc1Options f q d perceptual with
+    | some o1 =>
+      if o1.dither ∨ o1.perceptual ∨ (f = .bc1 ∧ d.hasAlpha) then "-" else hashBytes (reColour f o1 blk o px)
+    | none => "-"
+  let bc4 (o : Nat) : String :=
+    match Enc15.fmtBc4Options f q d perceptual, Enc15.bc4Channel f o with
+    | some o4, some c => if o4.dither then "-" else hashBytes (reBc4 o4 blk o (px.map (·.chan c)))
+    | _, _ => "-"
+  match f with
+  | .bc1 => colour 0
+  | .bc2 | .bc2p => "-." ++ colour 8
+  | .bc3 | .bc3p | .rxgb | .bc3n => bc4 0 ++ "." ++ colour 8
+  | .bc4u | .bc4s => bc4 0
+  | .bc5u | .bc5s => bc4 0 ++ "." ++ bc4 8
+  | _ => "-"
 
 /-! ### BC7: the arguments of `Compressed::modeN` read back from a block (positional reads of `Bc7Spec`) -/
 
@@ -342,7 +446,18 @@ def runC13 (line : String) : String :=
               | none => "!")
           else "-"
         | none => "-"
-      s!"ok {nb} {shapes} {ports} {hashes} {pred} {b7} {w7} {cl7}"
+      -- BC1–BC5 writer: parse + model writers; halves re-derived from their own endpoints and the original pixels
+      let w15 : String :=
+        match fmt with
+        | some f => String.join ((List.range nb).map fun b => hashBytes (rewriteBlock f (blkOf b)))
+        | none => "-"
+      let cl15 : String :=
+        match fmt, img with
+        | some f, some ia =>
+          ";".intercalate ((List.range nb).map fun b =>
+            if ¬ (inside b).all id then "-" else cl15Block f qual (ditheringOf d) (m = "P") (blkOf b) (pixels ia b))
+        | _, _ => "-"
+      s!"ok {nb} {shapes} {ports} {hashes} {pred} {b7} {w7} {cl7} {w15} {cl15}"
     | _, _, _, _, _ => "bad-case"
   | _ => "bad-case"
 
